@@ -65,7 +65,7 @@ def _init_worker():
 def _eval_chunk(args):
     idx0, chunk = args
     res = {"n": 0, "items": 0, "cls": Counter(), "skip": Counter(), "viol": [], "nt": set(),
-           "herr": [], "replays": 0, "samples": []}
+           "herr": [], "replays": 0, "samples": [], "counters": Counter()}
     for k, item in enumerate(chunk):
         try:
             o = _EVAL(item)
@@ -91,6 +91,7 @@ def _eval_chunk(args):
             continue
         res["items"] += 1
         res["n"] += o.get("n", 1)
+        res["counters"].update(o.get("counters") or {})
         if o.get("skip"):
             res["skip"][o["skip"]] += 1
         else:
@@ -148,8 +149,10 @@ class Totals:
         self.replays = 0
         self.samples = []
         self.viol_dropped = 0
+        self.counters = Counter()
 
     def merge(self, r):
+        self.counters.update(r.get("counters") or {})
         self.n += r["n"]
         self.items += r["items"]
         self.cls.update(r["cls"])
@@ -205,6 +208,8 @@ def fill_report(report, tot, rule, extra=None, floor_distinct=2):
     cov["samples"] = tot.samples[:5]
     if tot.viol_dropped:
         cov["violations_not_listed_individually"] = tot.viol_dropped
+    if tot.counters:
+        cov.update(dict(tot.counters))
     if extra:
         cov.update(extra)
     report.violations.extend(tot.viol)
